@@ -36,6 +36,11 @@ ONE = consts()
 # parameters added/removed in between, both may pass: the second spend then fails for lack of pool funds
 TWO = consts(types=("spend", "text"), exp=(False,), init=(2,), damts=(1,), depositors=("b",), voters=("v1",), denoms=("fx",),
              opts=("yes",), ctypes=("spend",), maxprop=2, maxdep=2)
+# community-pool-spend minimum deposit: requested amount below the default minimum ("small", 1 unit), inside
+# [default, default/ratio) (spend of 4 with ratio .25; expedited default 4 with ratio .75) and >= default/ratio
+# (spend of 4 with ratio .75), regular and expedited, custom ratio set/changed/removed between deposits; v1 may vote yes
+EGF = consts(types=("spend", "small"), exp=(False, True), init=(1, 2), damts=(1, 2), depositors=("b",), voters=("v1",), denoms=("fx",),
+             opts=("yes",), variants=("A", "B"), ctypes=("spend",), maxprop=1, maxdep=3)
 DEV = consts(types=("spend", "mixed"), exp=(False,), init=(2,), damts=(1,), depositors=("b",), voters=("v1",), denoms=("fx",),
              opts=("yes",), ctypes=("spend",), maxprop=1, maxdep=2)
 
@@ -55,6 +60,7 @@ TWO_B = consts(types=("spend", "text"), exp=(False,), init=(1, 2), damts=(1,), d
 GOV_MC = [
     dict(name="one", tiers=["quick", "thorough"], consts=ONE),
     dict(name="two", tiers=["quick", "thorough"], consts=TWO),
+    dict(name="egf", tiers=["quick", "thorough"], consts=EGF),
     dict(name="dev", tiers=["dev"], consts=DEV),
     dict(name="onefull", tiers=["thorough"], consts=ONE_FULL, timeout=2400),
     dict(name="onefull2", tiers=["thorough"], consts=ONE_FULL2, timeout=2400),
@@ -72,6 +78,8 @@ GOV_GEN = [
     gen("dev", ["dev"], DEV, 4, 2),
     gen("one", ["quick"], ONE, 14, 2),
     gen("two", ["quick"], TWO, 14, 2),
+    gen("egf", ["quick"], EGF, 14, 3),
+    gen("egf", ["thorough"], EGF, 16, 0),
     gen("one", ["thorough"], ONE, 16, 10),
     gen("two", ["thorough"], TWO, 16, 0),
     gen("onefull", ["thorough"], ONE_FULL, 16, 3),
@@ -91,7 +99,7 @@ def gov(pid):
                 "messages are routed through the application's MsgServiceRouter with ValidateBasic and per-message atomicity (world.Handle), not through signed transactions in real blocks",
                 "Tick runs the real fx gov EndBlocker (x/gov/abci.go) on a branch of the multistore and then moves block time one slot (1h) forward; other modules' begin/end blockers are not run",
                 "world built by real messages: gov MsgUpdateParams (min deposit 20 FX, expedited 40 FX, ratios 0.5, periods 1-3 slots, quorum 0.5), MsgUpdateCustomParams, MsgDelegate, MsgFundCommunityPool; validators come from the test genesis (100 FX each)",
-                "message types: text (no message), community-pool spend (two spends 1+3 units to fresh addresses, pool 5 units), 'custom' = two fx gov MsgUpdateStore writing marker keys, mixed = one of each",
+                "message types: text (no message), community-pool spend (two spends 1+3 units to fresh addresses, pool 5 units; 'small' = one spend of 1 unit, below the default minimum deposit of 2), 'custom' = two fx gov MsgUpdateStore writing marker keys, mixed = one of each",
                 "MsgCancelProposal (SDK) is not exercised: the property's quantifier lists submit, deposit, vote, time and custom parameters",
                 "PeriodAndQuorumByType quantifies over non-expedited proposals only (the property does not fix the period of an expedited proposal of a configured type)",
                 "the abstraction function reads the gov collections (proposals, deposits, votes, both queues, voting index, custom params 0x93), bank balances/supply, the distribution fee pool and the marker keys",
